@@ -110,6 +110,18 @@ func bfs(cfg Config, maxStates int64, mons map[string]bool) *Stats {
 		if len(next) > 0 {
 			depth++
 		}
+		if len(st.Viol) > 0 {
+			// a violation has been found and recorded with its shortest history: finishing
+			// the closure of a broken implementation adds nothing (and may not terminate)
+			st.Exhaustive = false
+			st.Cap = fmt.Sprintf("stopped after the first violating level (depth %d)", depth)
+			break
+		}
+		if depth > 64 {
+			st.Exhaustive = false
+			st.Cap = "depth cap 64"
+			break
+		}
 	}
 	st.States = int64(len(seen))
 	st.MaxDepth = depth
@@ -174,7 +186,7 @@ func dfsAll(cfg Config, depth int, first int, mons map[string]bool) *Stats {
 func selected(vs []violation, mons map[string]bool) []violation {
 	var out []violation
 	for _, v := range vs {
-		if mons[v.Mon] {
+		if mons[v.Mon] || mons[v.Mon+"/"+v.Sub] {
 			out = append(out, v)
 		}
 	}
